@@ -17,6 +17,20 @@ claimed = {
    text="FuncAction.Exec#post:perm with two loop invariants: whatever the wrapped function deleted, overwrote or returned, every '!' binding present before is present with its old value in any non-nil bindings that come back (all maps, all iteration orders); carried by contract through try (guards, via match's extension clause), consider and Step (#post:perm) to the next state's bindings. One case is a recorded known finding with a replayed witness: an action returning no bindings (`return null`) makes Step continue with empty bindings.",
    note="profile=pure (a native action/guard that deletes a '!' binding from its input map *in place* is outside the claim); Exp_PermanentBindings assumed true; match.Match's extension clause assumed (trusted_base)."),
 }
+claimed.update({
+ "C01": dict(cat="other", ref="DESIGN.md section 5/C01",
+   text="MIXED. Proved for all inputs (12 functions of the match package under contract, incl. the 86-block recursive match, mapcatMatch, arraycatMatch, inequal; all loop iteration counts and map iteration orders): every returned set is non-nil, extends the given bindings unchanged (ext), adds only names beginning with '?' (onlyVars), is a fresh map, the given bindings/pattern/message are not modified, no instruction can panic. BOUNDED (labelled so in the evidence, not counted as proved): 'the instantiated pattern is contained in the message' is checked by running the real Match on every (pattern, message, initial bindings) triple of a stated finite space against the executable spec function fits() written from the property text (7.4 million evaluations in quick). The containment relation is a recursive function of two heap graphs with an injective array matching; no contract the solvers can discharge expresses it (DESIGN.md 5/C01).",
+   note="extern stubs for strings.HasPrefix/errors.New; SSA->SMT encoding trusted; termination of the recursion not proved; the bounded part covers depth<=2, keys {a,b}, arrays<=2 only."),
+ "C02": dict(cat="exploration", ref="DESIGN.md section 5/C02",
+   text="BOUNDED ONLY (never reported as proved): completeness is an existential over the backtracking search and needs the recursive containment relation; no contract within the verifier's reach expresses it. The contract is written as an executable specification - embeds(pattern, assignment, message) - and the real Match is compared with it exhaustively for every plain pattern (depth<=2, keys {a,b}, arrays<=2, variables ?x ?y at most once) against every message of the space (depth<=2, arrays as sets): the returned sets must be exactly the embeddings, so extra keys/elements never hide a match. 1.9 million pattern/message pairs in quick; arrays up to 3 in thorough.",
+   note="exhaustive within the stated bound only; optional and inequality variables and pre-bound variables are outside this stand-in (C01's stand-in covers their soundness)."),
+ "C03": dict(cat="proof", ref="DESIGN.md section 5/C03",
+   text="`modifies nothing` on Match (pattern, message and given bindings extensionally unchanged at any depth), `modifies bindings` on the internal match (only the private copy), freshness of every returned map (fresh(bss[i])), write-target obligations (every store/map update/delete/in-place append in the 12 functions hits an object allocated during the call or the private copy) - all discharged. The relational part (same result for every map iteration order) cannot be expressed by per-function contracts; two concrete order dependences are recorded as known findings and replayed against the real code on every run.",
+   note="order-independence and determinism under re-evaluation are NOT proved (two known findings show they do not hold in general); concurrency follows from write-freedom by the DRF argument (paper)."),
+ "C12": dict(cat="proof", ref="DESIGN.md section 5/C12",
+   text="Write-freedom: for Step, Walk, consider, try, target, FuncAction.Exec, AddEvents and all 12 match functions, every store / map update / delete / in-place append is proved to target an object allocated during the call or the machine's own bindings map (`writes` clauses; 1300+ obligations), and `modifies nothing` holds extensionally - so no object reachable from a compiled *Spec is ever written by processing. Access discipline: every use of UpdatableSpec.spec is an argument of sync/atomic.LoadPointer/StorePointer or the initialising store of a fresh struct. Data-race freedom for all schedules of concurrent walks of distinct states then follows from Go's memory model (read-only sharing) - a paper step, stated in the evidence.",
+   note="profile=pure: native actions are assumed not to write anything but their bindings argument; goja program immutability and the ECMAScript interpreter are not yet under contract; the race detector is not part of this technique and is not used."),
+})
 na_reason = {
  "C11": "wall-clock promptness, goroutine counts and goja's interrupt polling cannot be expressed as function contracts; a contract on Exec would verify while the property is broken (DESIGN.md 5/C11)",
  "C17": "every clause is about interleavings of timer goroutines with requesters and about real time; sequential contracts on Add/Rem/cancel are trivially true (DESIGN.md 5/C17)",
